@@ -23,6 +23,28 @@ order: search_first_in_order) and counted, not judged: the property allows any o
 (edge_trees) put t on directory boundaries, on first / last instants, next to files of the neighbouring directory and
 two directories away, and exactly on both edges of the window; fileset[...] is indexed with datetime,
 pandas.Timestamp, str, (t, filters) tuples and [t, filters] lists, filters None or a dict (Model/C16_tree.getitem).
+
+Extension 2 (several filter entries): a share of the trees carries TWO user placeholders, {sat} and {ver}, each as a
+directory level or as part of the file name (gen_tree(two=True), a random stream of its own; filter_trees: directed,
+seed-independent).  Their queries carry filters dicts with several entries -- two '!' keys in both orders, a '!' key
+with a white-list key, lists of values, the same placeholder white- and black-listed.  The dict is handed to Coq entry
+by entry in the order of the dict (dict_query / zsplit split it as FileSet.find does); the candidates are the files
+passing ALL entries (all_filters_apply), whatever the order (dict_order_irrelevant); the numbered image handed to the
+composed model gives every file the same verdict (encoded_filters_agree, pool_numbering_ok: the numbering is checked once
+per run, `agrees` per query).
+
+Extension 3 (histories and neighbours of the object under test; harness only, the models are unchanged):
+ * re-configured time coverage: trees WITHOUT end fields may carry tree["recover"] = {"from": A}; the FileSet object is
+   then constructed with the coverage A (None / timedelta / "N seconds"), looks at its files (find() over everything,
+   find_closest, fileset[t]) and is told the coverage B of the tree by `fileset.time_coverage = B` before the query
+   proper (make_fileset).  The checker judges with the coverages of B, i.e. the answer of a fresh object constructed
+   with B.  recover_trees: directed, seed-independent (files at 00:00 / 08:00 / 16:00, steps None -> 6 h, 6 h -> 2 h,
+   6 h -> None, 2 h -> 6 h, 24 h -> 6 h, 2 h -> None, timestamps whose covering / nearest file differs between A and B,
+   each with the expected file); add_recover_histories: half of the random trees without end fields (own stream).
+ * decoy FileSet objects: for every tree with a user placeholder two other FileSet objects with the SAME placeholder
+   names and OTHER regexes (a literal value, "metop" + one word character, the default) are created on another directory AFTER the objects
+   under test and stay alive during the query (make_decoys); every answer, in particular find_closest(t, filters) /
+   fileset[t, filters] with a dict (also {}), is judged exactly as without them.
 """
 import datetime as dt
 import shutil
@@ -57,6 +79,9 @@ RES = {"day": DAY, "hour": HOUR, "minute": MINUTE, "second": SECOND}
 RANK = {"year": 0, "month": 1, "day": 2, "hour": 3, "minute": 4, "second": 5}
 PERIOD = {"year": 366 * DAY, "year2": 366 * DAY, "month": 31 * DAY, "day": DAY, "doy": DAY, "hour": HOUR}
 SATS = ["noaa", "metop", "x1", "n19"]      # prefix-free: black lists (re.match) and white lists (anchored) agree
+VERS = ["v1", "v2", "v3"]                  # the values of the SECOND user placeholder {ver}; prefix-free as well
+POOL = {"sat": SATS, "ver": VERS}          # user placeholder -> its values
+PH_INDEX = {"sat": 0, "ver": 1}            # user placeholder -> its number in C01's vocabulary (Model/C01_find: attrs)
 DIAG = {0: "accepted", 1: "not-a-file-of-the-fileset", 2: "excluded-file", 3: "filtered-out-file",
         4: "far-away-file", 5: "not-covering", 6: "not-nearest", 7: "absence-with-candidates"}
 
@@ -94,9 +119,20 @@ DIRS = {   # name -> (chunks, temporal fields of the directory part)
     "YM": [[T("year"), T("month")]],
     "Y-M-D": [[T("year"), L("-"), T("month"), L("-"), T("day")]],
     "Y/sat/M": [[T("year")], [("u", "sat")], [T("month")]],
+    # layouts with the second user placeholder as a directory level (only drawn for the two-placeholder trees: they are
+    # not in DIR_WEIGHTS, the general stream is what it was)
+    "ver": [[("u", "ver")]],
+    "sat/Y/M/D": [[("u", "sat")], [T("year")], [T("month")], [T("day")]],
+    "ver/Y/M/D": [[("u", "ver")], [T("year")], [T("month")], [T("day")]],
+    "sat/ver": [[("u", "sat")], [("u", "ver")]],
+    "sat/ver/Y/M": [[("u", "sat")], [("u", "ver")], [T("year")], [T("month")]],
+    "sat_ver/Y": [[("u", "sat"), L("_"), ("u", "ver")], [T("year")]],
 }
 DIR_WEIGHTS = ["flat", "flat", "Y", "Y/M", "Y/M", "Y/M/D", "Y/M/D", "Y/J", "y/M", "Y/M/D/H", "sat", "sat/Y/M",
                "lit/Y/mM", "YM", "Y-M-D", "Y/sat/M"]
+# two-placeholder trees ({sat} and {ver}; whichever is not a directory level is part of the file name)
+TWO_WEIGHTS = ["flat", "flat", "Y", "Y/M", "Y/M/D", "Y/J", "sat", "sat/Y/M", "Y/sat/M", "ver", "ver/Y/M/D", "sat/ver",
+               "sat/ver/Y/M", "sat_ver/Y", "YM"]
 
 
 def dir_fields(kind):
@@ -175,7 +211,7 @@ def own_text(field, t):
     return "%02d" % getattr(t, field)
 
 
-def own_render(tokens, s, e, sat):
+def own_render(tokens, s, e, sat, ver=None):
     out = []
     for t in tokens:
         if t[0] == "lit":
@@ -183,7 +219,7 @@ def own_render(tokens, s, e, sat):
         elif t[0] == "t":
             out.append(own_text(t[2], e if t[1] else s))
         else:
-            out.append(sat)
+            out.append(ver if t[1] == "ver" else sat)
     return "".join(out)
 
 
@@ -232,11 +268,15 @@ def gen_centre(rng, res):
     return u // RES[res] * RES[res]
 
 
-def gen_tree(rng, k, force=None):
+def gen_tree(rng, k, force=None, two=False):
     """force (directed cases only): {"kind", "res", "ends", "sat"} override the drawn choices AFTER they are drawn, so
-    that the general stream (force=None) is exactly what it was"""
+    that the general stream (force=None) is exactly what it was.
+    two: a tree with TWO user placeholders, {sat} and {ver}, each a directory level or part of the file name; its
+    queries carry filters over both (gen_filters2).  These trees are drawn from a stream of their own."""
     force = force or {}
     kind = rng.choice(DIR_WEIGHTS)
+    if two:
+        kind = rng.choice(TWO_WEIGHTS)
     kind = force.get("kind", kind)
     dfields = dir_fields(kind)
     dir_rank = max([RANK.get({"year2": "year", "doy": "day"}.get(f, f)) for f in dfields], default=0)
@@ -256,11 +296,16 @@ def gen_tree(rng, k, force=None):
     date = {"full": ["year", "month", "day"], "doy": ["year", "doy"], "y2": ["year2", "month", "day"], "rest": []}[style]
     ends = style != "rest" and rng.random() < 0.4
     ends = force.get("ends", ends)
-    sat_in_dir = any(t[0] == "u" for ch in DIRS[kind] for t in ch)
+    sat_in_dir = any(t == ("u", "sat") for ch in DIRS[kind] for t in ch)
+    ver_in_dir = any(t == ("u", "ver") for ch in DIRS[kind] for t in ch)
     sat_in_name = (not sat_in_dir) and rng.random() < 0.4
+    if two:
+        sat_in_name = not sat_in_dir
     if "sat" in force:
         sat_in_name = force["sat"] and not sat_in_dir
     has_sat = sat_in_dir or sat_in_name
+    has_ver = bool(two)
+    ver_in_name = has_ver and not ver_in_dir
     fixed_sat = rng.choice(SATS[:3]) if has_sat and rng.random() < 0.15 else None
     coverage = None
     if not ends and rng.random() < 0.55 and not force:
@@ -279,6 +324,8 @@ def gen_tree(rng, k, force=None):
         toks += [L("-")] + [T(f, True) for f in date] + ([L(sep)] if sub else []) + [T(f, True) for f in sub]
     if sat_in_name:
         toks += [L("_"), ("u", "sat")]
+    if ver_in_name:
+        toks += [L(rng.choice(["_", ".", "-", "_r"])), ("u", "ver")]
     toks.append(L(rng.choice([".dat", ".nc", ".bin"])))
     toks = merge_lits(toks)
     # population around the centre
@@ -317,14 +364,15 @@ def gen_tree(rng, k, force=None):
         t0 = tc + off * r
         t1 = t0 + dur * r
         sat = (fixed_sat or rng.choice(SATS)) if has_sat else None
-        name = own_render(toks, of_us(t0), of_us(t1), sat)
+        ver = rng.choice(VERS) if has_ver else None
+        name = own_render(toks, of_us(t0), of_us(t1), sat, ver)
         if name in names:
             continue
         names.add(name)
-        files.append({"name": name, "t0": t0, "t1": t1, "sat": sat})
+        files.append({"name": name, "t0": t0, "t1": t1, "sat": sat, "ver": ver})
     rng.shuffle(files)
     tree = {"id": k, "kind": kind, "res": res, "tokens": toks, "fixed_sat": fixed_sat, "coverage": coverage,
-            "has_sat": has_sat, "files": files, "centre": tc, "P": P, "ends": ends}
+            "has_sat": has_sat, "has_ver": has_ver, "files": files, "centre": tc, "P": P, "ends": ends}
     tree["queries"] = gen_queries(rng, tree, K)
     # history: files that exist when the FileSet object first looks at the directory and are gone afterwards (moved away,
     # deleted); the object must answer for the files that exist NOW.  The vanished files are not part of tree["files"]
@@ -465,7 +513,167 @@ def edge_trees(rng, k0):
     return out
 
 
+RECOVER_STEPS = [   # (coverage A the object is constructed with, coverage B assigned afterwards), in hours; None = discrete
+    (None, 6), (6, 2), (6, None), (2, 6), (24, 6), (2, None),
+]
+
+
+def recover_trees(rng, k0):
+    """Directed trees every run contains whatever the seed (re-configured time coverage, seeded change C16-k): templates
+    WITHOUT end fields, files that start at 00:00, 08:00 and 16:00 of one day; ONE FileSet object is constructed with the
+    coverage A, looks at its files and is then told `fileset.time_coverage = B` (make_fileset).  The timestamps are those
+    whose covering / nearest file differs between A and B (e.g. B = 6 h: 05:30 lies inside the 00:00 file, with discrete
+    files the 08:00 file is nearer); the expected file is the one of a fresh object constructed with B, which is what
+    the model is evaluated with (`expect`, compared with the model first)."""
+    out = []
+    for kind in ("flat", "Y/M/D", "Y/M", "Y/J"):
+        base = gen_tree(rng, k0, force={"kind": kind, "res": "minute", "ends": False, "sat": False})
+        day = us_of(dt.datetime(2018, 1, 1)) if kind != "Y/J" else us_of(dt.datetime(2020, 2, 29))
+        for a, b in RECOVER_STEPS:
+            tree = dict(base)
+            tree["id"] = k0 + len(out)
+            cov = 0 if b is None else b * HOUR
+            files = []
+            for h in (0, 8, 16):
+                t0 = day + h * HOUR
+                files.append({"name": own_render(tree["tokens"], of_us(t0), of_us(t0 + cov), None), "t0": t0,
+                              "t1": t0 + cov, "sat": None})
+            if len({f["name"] for f in files}) != 3:
+                continue
+
+            def rule(t):
+                covering = [i for i, f in enumerate(files) if f["t0"] <= t <= f["t1"]]
+                if covering:
+                    return covering
+                d = [min(abs(f["t0"] - t), abs(f["t1"] - t)) for f in files]
+                return [i for i, x in enumerate(d) if x == min(d)]
+            tree["files"], tree["vanished"], tree["centre"] = files, [], day + 8 * HOUR
+            tree["coverage"] = None if b is None else b * HOUR
+            tree["recover"] = {"from": None if a is None else a * HOUR}
+            qs = []
+            for m in (90, 210, 330, 360, 450, 480, 690, 810, 840, 1020, 1410):      # minutes after midnight
+                t = day + m * MINUTE
+                allowed = rule(t)
+                q = {"label": "recover-directed", "t": t, "filters": None, "xnames": [], "xtimes": [], "as_str": False}
+                if len(allowed) == 1:
+                    q["expect"] = files[allowed[0]]["name"]
+                qs.append(q)
+            tree["queries"] = qs
+            out.append(tree)
+    return out
+
+
+def add_recover_histories(rng, trees):
+    """a share of the random trees WITHOUT end fields gets a re-configuration history: the object is constructed with
+    another coverage A (None, or a multiple of the resolution of the names) and told the tree's coverage afterwards.  The
+    choice is drawn from a stream of its own: trees and queries are exactly what they were."""
+    n = 0
+    for tree in trees:
+        if tree["ends"] or tree.get("recover") or not tree["files"]:
+            continue
+        if rng.random() < 0.5:
+            r = RES[tree["res"]]
+            pool = [a for a in (None, None, r, 2 * r, 6 * r, 24 * r, 30 * r, tree["P"]) if a != tree["coverage"]
+                    and (a is None or a <= 400 * DAY)]
+            tree["recover"] = {"from": rng.choice(pool)}
+            n += 1
+    return n
+
+
+FILTER_SETS = [
+    {"sat": "noaa"}, {"!sat": "metop"}, {"!ver": "v1"},
+    {"sat": "noaa", "!ver": "v1"}, {"!ver": "v1", "sat": "metop"},                   # a white list with a black list
+    {"!sat": "metop", "!ver": "v1"}, {"!ver": "v1", "!sat": "metop"},                # two black lists, both orders
+    {"!sat": ["metop", "x1"], "!ver": ["v1", "v3"]}, {"!ver": ["v1", "v3"], "!sat": ["metop", "x1"]},
+    {"!sat": "noaa", "!ver": "v2"}, {"!ver": "v2", "!sat": "noaa"},
+    {"sat": ["noaa", "x1"], "ver": ["v2", "v3"]},                                    # two white lists
+    {"sat": ["noaa", "metop"], "!sat": "metop", "!ver": "v3"}, {"!ver": "v3", "!sat": "metop", "sat": ["noaa", "metop"]},
+    {"!sat": SATS, "!ver": "v1"}, {"!ver": "v1", "!sat": SATS},                      # nothing passes
+]
+FILTER_POP = [   # (sat, ver, first hour, last hour) on one day
+    ("metop", "v2", 0, 3), ("noaa", "v2", 4, 5), ("noaa", "v1", 6, 9), ("metop", "v1", 10, 11),
+    ("x1", "v3", 12, 14), ("noaa", "v3", 15, 16), ("metop", "v2", 17, 19), ("noaa", "v2", 20, 21),
+]
+
+
+def filter_trees(rng, k0):
+    """Directed trees every run contains whatever the seed (second user placeholder): eight files of four platforms and
+    three versions on one day, under four templates (both placeholders in the file name; {sat} as a directory level above
+    daily directories and {ver} in the name; both as directory levels; month directories), asked at covered instants and
+    in gaps with every entry of FILTER_SETS.  Each query carries the number of files the filters admit by the plain
+    reading of the dict (a file passes when EVERY entry admits it), compared with the candidates Coq counts."""
+    out = []
+    day = us_of(dt.datetime(2018, 1, 1))
+    stamps = [1 * HOUR, 7 * HOUR, 10 * HOUR + 30 * MINUTE, 13 * HOUR, 16 * HOUR + 30 * MINUTE, 22 * HOUR]
+    for j, kind in enumerate(["flat", "sat/Y/M/D", "sat/ver", "Y/M"]):
+        tree = gen_tree(rng, k0 + j, force={"kind": kind, "res": "minute", "ends": True}, two=True)
+        tree["fixed_sat"] = None
+        files, names = [], set()
+        for sat, ver, h0, h1 in FILTER_POP:
+            t0, t1 = day + h0 * HOUR, day + h1 * HOUR
+            n = own_render(tree["tokens"], of_us(t0), of_us(t1), sat, ver)
+            names.add(n)
+            files.append({"name": n, "t0": t0, "t1": t1, "sat": sat, "ver": ver})
+        if len(names) != len(files):
+            continue
+        tree["files"], tree["vanished"], tree["centre"] = files, [], day
+
+        def admits(f, flt):
+            for key, v in flt.items():
+                vs = v if isinstance(v, list) else [v]
+                if (f[key.lstrip("!")] in vs) == key.startswith("!"):
+                    return False
+            return True
+        tree["queries"] = [{"label": "filters-directed", "t": day + stamps[(i + s_) % len(stamps)], "filters": dict(flt),
+                            "xnames": [], "xtimes": [], "as_str": False,
+                            "expect_ncand": sum(1 for f in files if admits(f, flt))}
+                           for i, flt in enumerate(FILTER_SETS) for s_ in range(3)]
+        out.append(tree)
+    return out
+
+
+def gen_filters2(rng, tree):
+    """filters over the two user placeholders of a two-placeholder tree: several entries in one dict -- two '!' keys in
+    both orders, a '!' key with a white-list key, lists of values, the same placeholder white- and black-listed.  The
+    candidates of the specification are the files passing ALL entries (all_filters_apply)."""
+    if rng.random() < 0.2:
+        return None
+    present = {n: sorted({f[n] for f in tree["files"] if f.get(n)}) or POOL[n] for n in ("sat", "ver")}
+
+    def vals(name):
+        v = rng.sample(POOL[name], rng.choice([1, 1, 2]))
+        if rng.random() < 0.65:
+            v[0] = rng.choice(present[name])
+        v = sorted(set(v), key=v.index)
+        return v if len(v) > 1 or rng.random() < 0.5 else v[0]
+    st = rng.random()
+    if st < 0.34:
+        keys = ["!sat", "!ver"]                                  # two black lists
+    elif st < 0.54:
+        keys = rng.choice([["sat", "!ver"], ["!sat", "ver"]])    # a white list with a black list
+    elif st < 0.62:
+        keys = ["sat", "ver"]
+    elif st < 0.74:
+        keys = rng.choice([["sat", "!sat", "!ver"], ["ver", "!ver", "!sat"], ["sat", "!sat", "ver", "!ver"]])
+    elif st < 0.9:
+        keys = [rng.choice(["sat", "!sat", "ver", "!ver"])]
+    else:
+        keys = rng.sample(["sat", "!sat", "ver", "!ver"], rng.choice([0, 2, 3]))
+    rng.shuffle(keys)                                            # the order of the entries of the dict
+    return {k: vals(k.lstrip("!")) for k in keys}
+
+
+def filter_shape(flt):
+    if flt is None:
+        return "no-filters"
+    nb = sum(1 for k in flt if k.startswith("!"))
+    nw = len(flt) - nb
+    return f"{nw}-white-{nb}-black"
+
+
 def gen_filters(rng, tree):
+    if tree.get("has_ver"):
+        return gen_filters2(rng, tree)
     if not tree["has_sat"] or rng.random() < 0.5:
         return None
     present = sorted({f["sat"] for f in tree["files"]}) or SATS
@@ -613,28 +821,83 @@ def build_tree(root, tree):
         p.touch()
 
 
-def make_fileset(root, tree, q):
+def coverage_value(us, n=0):
+    """a relative time coverage as the user writes it: None, a timedelta or (every other time, whole seconds) a string"""
+    if us is None:
+        return None
+    if n % 2 and us % SECOND == 0:
+        return f"{us // SECOND} seconds"
+    return dt.timedelta(microseconds=us)
+
+
+def make_fileset(root, tree, q, n=0):
+    """The FileSet object a query is put to.  When the tree carries a re-configuration history (tree["recover"] =
+    {"from": A}), the object is constructed with the time coverage A, looks at its files (find() over everything,
+    find_closest at the timestamp and at the centre of the tree, fileset[t]) and is THEN told the coverage of the tree by
+    an assignment `fileset.time_coverage = B`: the answers must be those of an object constructed with B (the coverages
+    the checker judges with)."""
     from typhon.files import FileSet
     kw = {"name": "c16", "handler": _Stub()}
     if tree["fixed_sat"]:
         kw["placeholder"] = {"sat": tree["fixed_sat"]}
-    if tree["coverage"] is not None:
-        kw["time_coverage"] = dt.timedelta(microseconds=tree["coverage"])
-    exclude = [root + n[len(ROOT):] for n in q["xnames"]] + [(of_us(a), of_us(b)) for a, b in q["xtimes"]]
+    hist = tree.get("recover") if not tree["ends"] else None
+    first = hist["from"] if hist else tree["coverage"]
+    if first is not None:
+        kw["time_coverage"] = coverage_value(first, n + 1) if hist else dt.timedelta(microseconds=first)
+    exclude = [root + n_[len(ROOT):] for n_ in q["xnames"]] + [(of_us(a), of_us(b)) for a, b in q["xtimes"]]
     if exclude:
         kw["exclude"] = exclude
-    return FileSet(root + template_string(tree["tokens"])[len(ROOT):], **kw)
+    fs = FileSet(root + template_string(tree["tokens"])[len(ROOT):], **kw)
+    if hist:
+        t = of_us(q["t"])
+        for call in (lambda: list(fs.find(no_files_error=False)), lambda: fs.find_closest(t),
+                     lambda: fs.find_closest(of_us(tree["centre"])), lambda: fs[t]):
+            try:
+                call()
+            except Exception:  # noqa
+                pass
+        fs.time_coverage = coverage_value(tree["coverage"], n)
+        STATS["time_coverage_reassigned_objects"] += 1
+    return fs
+
+
+STATS = {"time_coverage_reassigned_objects": 0, "decoy_filesets": 0}
+DECOY_REGEX = [None, r"metop\w", "literal"]
+
+
+def make_decoys(droot, tree, n):
+    """Other FileSet objects of the same process that use the SAME user-placeholder names with OTHER regular expressions
+    (a narrower literal, metop\\w, the default) on another directory, created AFTER the object under test and kept alive by
+    the caller during the query: the answers of the object under test must not depend on them (seeded change C16-l: a
+    class-level placeholder dict)."""
+    from typhon.files import FileSet
+    names = [x for x in ("sat", "ver") if tree.get("has_" + x)]
+    if not names:
+        return []
+    out = []
+    for j in range(2):
+        kind = DECOY_REGEX[(n + j + 1) % 3]                      # the last created: literal, default, metop\w, ...
+        ph = {}
+        if kind is not None:
+            for x in names:
+                ph[x] = POOL[x][(n + j) % len(POOL[x])] if kind == "literal" else (kind if x == "sat" else r"v[12]")
+        path = droot + "/" + "_".join("{" + x + "}" for x in names) + "_{year}{month}{day}T{hour}{minute}.txt"
+        out.append(FileSet(path, name=f"decoy{j}", placeholder=ph or None, handler=_Stub()))
+        STATS["decoy_filesets"] += 1
+    return out
 
 
 def run_impl(tree):
     """-> per query: {"find_closest": canon, "getitem": canon}, plus the coverages get_info parses"""
     root = tempfile.mkdtemp(prefix="verif_c16_")
+    droot = tempfile.mkdtemp(prefix="verif_c16d_")                # the directory of the decoy FileSet objects
     try:
         build_tree(root, tree)
         out, parsed = [], None
         for q in tree["queries"]:
+            nq = int(tree.get("id", 0)) + len(out)
             try:
-                fs = make_fileset(root, tree, q)
+                fs = make_fileset(root, tree, q, nq)
             except Exception as e:  # noqa
                 out.append({"find_closest": f"ERR:init {type(e).__name__}: {str(e)[:100]}", "getitem": None})
                 continue
@@ -646,7 +909,7 @@ def run_impl(tree):
                         parsed.append([us_of(info.times[0]), us_of(info.times[1])])
                     except Exception as e:  # noqa
                         parsed.append(f"ERR:{type(e).__name__}")
-                fs = make_fileset(root, tree, q)              # fresh info cache
+                fs = make_fileset(root, tree, q, nq)          # fresh info cache
             t = of_us(q["t"])
             targ = t.strftime("%Y-%m-%d %H:%M:%S") if q["as_str"] else t
             flt = q["filters"]
@@ -666,15 +929,22 @@ def run_impl(tree):
                     pass
                 for pth in paths:
                     pth.unlink()
-            fs2 = make_fileset(root, tree, q)
+            fs2 = make_fileset(root, tree, q, nq + 1)
+            # other FileSet objects with the same placeholder names and other regexes, created after the objects under
+            # test and alive during the query
+            try:
+                decoys = make_decoys(droot, tree, nq)
+            except Exception:  # noqa
+                decoys = []
             if tree["has_sat"] and len(out) % 3 != 2:
                 # history on the same object: the same question was asked before with ANOTHER value for the same filter
                 # key (a fresh dict each time) -- the answer to the query proper must be the function of its own filters
                 used = []
                 for v in (flt or {}).values():
                     used += v if isinstance(v, list) else [v]
-                others = [x for x in SATS if x not in used] or SATS
                 for key in (list(flt) if flt else ["sat"]):
+                    pool = POOL[key.lstrip("!")]
+                    others = [x for x in pool if x not in used] or pool
                     for o, obj in enumerate((fs, fs2)):
                         try:
                             obj.find_closest(targ, filters={key: others[(len(out) + o) % len(others)]})
@@ -684,45 +954,61 @@ def run_impl(tree):
             form = q.get("form") or item_form(tree, len(out), flt)
             b = _canon(root, lambda: fs2[make_item(form, targ, flt)])
             out.append({"find_closest": a, "getitem": b, "form": form})
+            del decoys
         return out, parsed
     finally:
         shutil.rmtree(root, ignore_errors=True)
+        shutil.rmtree(droot, ignore_errors=True)
 
 
 # ----------------------------------------------------------------------------- Coq side
 
-def coq_filters(flt):
-    white, black = [], []
-    for k, v in (flt or {}).items():
+def coq_dict(flt):
+    """the filters dict entry by entry IN THE ORDER OF THE DICT (Model/C16_tree.fdict): (true, k, vs) = the key "!k";
+    the split into white and black lists is done inside Coq (split_dict), as FileSet.find does it"""
+    items = []
+    for k, v in flt.items():
         vs = list(v) if isinstance(v, (list, tuple)) else [v]
-        item = f"({cs(k.lstrip('!'))}, {coq_list([cs(x) for x in vs])})"
-        (black if k.startswith("!") else white).append(item)
-    return ("true" if flt is not None else "false"), coq_list(white), coq_list(black)
+        items.append(f"({'true' if k.startswith('!') else 'false'}, {cs(k.lstrip('!'))}, {coq_list([cs(x) for x in vs])})")
+    return coq_list(items)
 
 
 def coq_query(q):
-    f, w, b = coq_filters(q["filters"])
     xn = coq_list([cs(n) for n in q["xnames"]])
     xt = coq_list([f"({zlit(a)}, {zlit(b_)})" for a, b_ in q["xtimes"]])
-    return f"(Query {f} {w} {b} {xn} {xt})"
+    if q["filters"] is None:
+        return f"(Query false [] [] {xn} {xt})"
+    return f"(dict_query {coq_dict(q['filters'])} {xn} {xt})"
+
+
+def coq_attrs(f):
+    """the user placeholders of a file as the attribute map of Model/C16_closest.file"""
+    return coq_list([f"({cs(n)}, {cs(f[n])})" for n in ("sat", "ver") if f.get(n) is not None])
+
+
+def coq_zattrs(f):
+    """... and in C01's vocabulary: placeholder number -> position of the value among the placeholder's values"""
+    return coq_list([f"({PH_INDEX[n]}, {zlit(POOL[n].index(f[n]))})" for n in ("sat", "ver") if f.get(n) is not None])
 
 
 def coq_files(tree):
     items = []
     for f in tree["files"]:
-        attrs = coq_list([f"({cs('sat')}, {cs(f['sat'])})"]) if f["sat"] is not None else "[]"
-        items.append(f"File {cs(f['name'])} {zlit(f['t0'])} {zlit(f['t1'])} {attrs}")
+        items.append(f"File {cs(f['name'])} {zlit(f['t0'])} {zlit(f['t1'])} {coq_attrs(f)}")
     return coq_list(items)
 
 
 def coq_zfilters(flt):
-    """white and black lists in C01's vocabulary: placeholder 0 = sat, values = positions in SATS"""
-    white, black = [], []
+    """the dict in C01's vocabulary (Model/C16_tree.zentry; placeholder 0 = sat, 1 = ver, values = positions in SATS /
+    VERS: the numbering pool_kc / pool_vc of pool_numbering_ok, compared once per run in check_numbering), in the order
+    of the dict; split into white and black lists inside Coq (zsplit)"""
+    items = []
     for k, v in (flt or {}).items():
         vs = list(v) if isinstance(v, (list, tuple)) else [v]
-        item = f"(0, {coq_list([zlit(SATS.index(x)) for x in vs])})"
-        (black if k.startswith("!") else white).append(item)
-    return f"({coq_list(white)}, {coq_list(black)})"
+        name = k.lstrip("!")
+        items.append(f"({'true' if k.startswith('!') else 'false'}, {PH_INDEX[name]}, "
+                     f"{coq_list([zlit(POOL[name].index(x)) for x in vs])})")
+    return f"(zsplit {coq_list(items)})"
 
 
 def tree_side_expr(tree):
@@ -734,10 +1020,8 @@ def tree_side_expr(tree):
     ffiles, flat = [], []
     for i in order:
         f = files[i]
-        attrs = f"[(0, {zlit(SATS.index(f['sat']))})]" if f["sat"] is not None else "[]"
-        ffiles.append(f"F.mkfile {zlit(i)} {zlit(f['t0'])} {zlit(f['t1'])} {zlit(f['t0'])} {attrs} false")
-        sattrs = coq_list([f"({cs('sat')}, {cs(f['sat'])})"]) if f["sat"] is not None else "[]"
-        flat.append(f"File {cs(f['name'])} {zlit(f['t0'])} {zlit(f['t1'])} {sattrs}")
+        ffiles.append(f"F.mkfile {zlit(i)} {zlit(f['t0'])} {zlit(f['t1'])} {zlit(f['t0'])} {coq_zattrs(f)} false")
+        flat.append(f"File {cs(f['name'])} {zlit(f['t0'])} {zlit(f['t1'])} {coq_attrs(f)}")
     qs = []
     for q in tree["queries"]:
         xs = [i for i, f in enumerate(files) if f["name"] in q["xnames"]]
@@ -808,10 +1092,13 @@ def single_case(rec):
     """the self-contained case of one verdict record (one tree, one query)"""
     tree, q = rec["tree"], rec["tree"]["queries"][rec["qi"]]
     t = {k: tree[k] for k in ("kind", "res", "tokens", "fixed_sat", "coverage", "has_sat", "files", "centre", "P", "ends")}
+    t["has_ver"] = tree.get("has_ver", False)
     t["template"] = template_string(tree["tokens"])
     t["vanished"] = tree.get("vanished", [])
+    if tree.get("recover"):
+        t["recover"] = tree["recover"]
     t["queries"] = [q]
-    t["id"] = tree.get("id", 0)
+    t["id"] = tree.get("id", 0) + rec["qi"]       # id + position of the query: the item form and the decoy variant of the run
     return {"tree": t, "mode": rec["mode"], "timestamp": str(of_us(q["t"]))}
 
 
@@ -850,6 +1137,9 @@ def judge(ctx, rec, report=True):
         if chosen != exp:
             return ("correspondence", "directed-expectation", f"a directed case expects {exp}, the model answers {chosen}: "
                     + where)
+    if q.get("expect_ncand") is not None and rec["ncand"] != q["expect_ncand"]:
+        return ("correspondence", "directed-expectation", f"a directed case expects {q['expect_ncand']} files to pass "
+                f"every entry of the filters, the model counts {rec['ncand']} candidates: " + where)
     # the coverages the checker judges with are the ones the names spell out under the template (what C02's round-trip
     # theorems prescribe for the three end spellings generated here); when get_info parses OTHER coverages and the answer is
     # wrong for the spelled-out ones, the timestamp is a failing input of this property all the same (the remark says so)
@@ -950,6 +1240,23 @@ def check_single(ctx, cases):
                          case={"single": c, "mode": mode}, impl=o, model=want, signature="single-file")
 
 
+def check_numbering(ctx):
+    """the harness numbers the user placeholders and their values by position (PH_INDEX, POOL): this is pool_kc / pool_vc
+    of Model/C16_tree.v, and the pools are prefix-free (pools_ok): the hypotheses of encoded_filters_agree /
+    dict_composed_is_flat hold for it (pool_numbering_ok)"""
+    names = sorted(PH_INDEX, key=PH_INDEX.get)
+    ps = coq_list([f"({cs(n)}, {coq_list([cs(v) for v in POOL[n]])})" for n in names])
+    exprs = [f"(pools_ok {ps}, map (pool_kc {ps}) {coq_list([cs(n) for n in names])}, "
+             + coq_list([f"map (pool_vc {ps} {cs(n)}) {coq_list([cs(v) for v in POOL[n]])}" for n in names]) + ")"]
+    vals, log = core.coq_eval(ctx.work / "cases", "numbering", PREAMBLE, exprs)
+    want = (True, [PH_INDEX[n] for n in names], [list(range(len(POOL[n]))) for n in names])
+    ctx.cov["evaluations"] += 1
+    got = vals[0]
+    if got is None or (got[0], list(got[1]), [list(x) for x in got[2]]) != want:
+        ctx.fail("correspondence", f"the harness's numbering of user placeholders / values {want} is not the numbering "
+                 f"pool_kc / pool_vc of the model or the pools are not prefix-free: Coq says {got}", signature="numbering")
+
+
 def run(ctx):
     ctx.prove("Props/C16.v")
     nt = ctx.n(110, 2200)
@@ -962,6 +1269,15 @@ def run(ctx):
             trees.append(t)
     trees += edge_trees(drng, nt + 100)
     trees += partial_end_trees(drng, nt + 300)
+    # the second user placeholder: trees with {sat} AND {ver}, filters over both (a stream of its own, generated after
+    # everything else: the older families are exactly what they were), and the directed filter trees
+    vrng = _random.Random(f"C16-two-placeholders:{ctx.seed}")
+    n2 = ctx.n(36, 500)
+    trees += [gen_tree(vrng, nt + 400 + j, two=True) for j in range(n2)]
+    trees += filter_trees(drng, nt + 380)
+    # re-configured time coverage on one object (seeded change C16-k): directed trees and a share of the random ones
+    trees += recover_trees(drng, nt + 1000)
+    n_recover = add_recover_histories(_random.Random(f"C16-recover:{ctx.seed}"), trees)
     singles = [gen_single(ctx.rng, k) for k in range(ctx.n(12, 120))]
     records = evaluate(ctx, trees)
     nontrivial, first, classes, seen_sig = set(), {}, {}, {}
@@ -970,6 +1286,11 @@ def run(ctx):
             "outside_C01_hypotheses": 0, "window_leaves_datetime": 0}
     choice = {"implementation_is_the_models_choice": 0, "another_allowed_file": 0, "several_allowed": 0}
     forms, seen_q = {}, set()
+    shapes = {}
+    for t in trees:
+        if t.get("has_ver"):
+            for q in t["queries"]:
+                shapes[filter_shape(q["filters"])] = shapes.get(filter_shape(q["filters"]), 0) + 1
     for rec in records:
         ctx.cov["evaluations"] += 1
         j = judge(ctx, rec)
@@ -1030,17 +1351,20 @@ def run(ctx):
                                                "candidates": rec["ncand"], "covering": rec["ncov"],
                                                "hypotheses_hold": rec["hyp"]}), signature=sig)
     check_single(ctx, singles)
+    check_numbering(ctx)
     ctx.cov["distinct_nontrivial"] = len(nontrivial)
     ctx.cov["rule"] = ("one evaluation = one answer of find_closest / fileset[t] / fileset[t, filters] on a harness-built "
                        "tree, judged by the certified checker; non-trivial = the hypotheses hold, the fileset has files and "
                        "the checker would reject at least one of them (or any file at all, when absence must be reported); "
                        "distinct by (template, population, timestamp, filters, exclusions)")
     ctx.cov["input_distribution"] = {
-        "trees": nt, "queries": sum(len(t["queries"]) for t in trees), "single_file_cases": len(singles),
+        "trees": len(trees), "general_trees": nt, "queries": sum(len(t["queries"]) for t in trees), "single_file_cases": len(singles),
         "layouts": {k: sum(1 for t in trees if t["kind"] == k) for k in sorted(DIRS)},
         "name_resolution": {k: sum(1 for t in trees if t["res"] == k) for k in RES},
         "with_end_fields": sum(1 for t in trees if t["ends"]), "with_time_coverage": sum(1 for t in trees if t["coverage"]),
         "with_user_placeholder": sum(1 for t in trees if t["has_sat"]),
+        "with_two_user_placeholders": sum(1 for t in trees if t.get("has_ver")),
+        "filter_shapes_on_two_placeholder_trees": shapes,
         "literal_user_placeholder": sum(1 for t in trees if t["fixed_sat"]),
         "empty_filesets": sum(1 for t in trees if not t["files"]),
         "query_kinds": labels, "decision_classes": classes,
@@ -1048,13 +1372,23 @@ def run(ctx):
         "directed_edge_trees": sum(1 for t in trees for q in t["queries"][:1] if q["label"].startswith("edge-")),
         "with_filters": sum(1 for t in trees for q in t["queries"] if q["filters"] is not None),
         "with_exclusions": sum(1 for t in trees for q in t["queries"] if q["xnames"] or q["xtimes"]),
+        "time_coverage_reassigned_on_one_object": {
+            "directed_trees": sum(1 for t in trees if t["queries"][:1] and t["queries"][0]["label"] == "recover-directed"),
+            "random_trees_with_a_history": n_recover,
+            "steps": {f"{'None' if a is None else 'timedelta'}->{'None' if b is None else 'timedelta'}":
+                      sum(1 for t in trees if t.get("recover") and (t["recover"]["from"] is None) == (a is None)
+                          and (t["coverage"] is None) == (b is None))
+                      for a, b in ((None, 1), (1, None), (1, 1))},
+            "objects_reassigned": STATS["time_coverage_reassigned_objects"]},
+        "decoy_filesets_alive_during_queries": STATS["decoy_filesets"],
     }
     ctx.assumptions += [
         "coverages well formed and inside datetime; a file named by get_filename(t) covers t (t at the resolution of the "
         "file names): hypotheses of model_meets_spec / accepted_iff_spec, evaluated in Coq per case (hyps_decided)",
         "populations are well placed (every file in the directory of its start) with durations <= one directory period, "
         "so that FileSet.find is its brute-force specification (C01)",
-        "white-list values are delimited by literals of the template; black-list values are literal prefixes",
+        "white-list values are delimited by literals of the template; black-list values are literal prefixes; the values "
+        "of one user placeholder are prefix-free (pools_ok, evaluated in Coq per run)",
     ]
     return ctx.finish(trusted_base=TRUSTED)
 
